@@ -1,5 +1,6 @@
 import PydraModel.JobProto.C10Checks
 import PydraModel.JobProto.SmallBig
+import PydraModel.JobProto.C10Init
 /-
 C10 — Concurrent submitters of one job share a single execution (DESIGN §6 C10, engine JobProto §5.4).
 
@@ -19,10 +20,17 @@ UNBOUNDED (any number of processes, any interleaving of single actions and proce
   semantics, run by one process without interruption, computes exactly the big-step `Prog.run` that C12 / C13 /
   C35 and `C10_once` speak about.
 
-HONEST SCOPE: the interleaving theorems (`C10_mutex`, `C10_access_locked`) are proved at single-action granularity.
-`C10_once` is proved for the SERIALIZED composition of whole calls (the class of `withLock`-shaped programs: all
-shared accesses inside one job-lock block), which the two theorems above justify; the formal reduction from the
-fine-grained interleaving to the serialized one (a Lipton-style commutation argument) is NOT mechanised.
+* `C10_once_interleaved` (+`_async`): THE REDUCTION, mechanised (`JobProto/Reduction.lean`).  Any number of processes,
+  ANY interleaving of single actions (result writes in two moves, no process deaths), no rerun, body succeeds, any
+  legal initial result file: every submitter whose call has ended has returned the complete good result; whenever
+  nobody holds the lock the job directory is in its initial state or in the target state, and in the target state —
+  complete good result, body entered exactly once (never, if the good result was there from the start) — as soon as
+  one submitter has ended.  Proof: actions outside the lock touch no shared state (`C10_mover`, from
+  `LockDiscipline`), so every process's run is its solo (= big-step, `C10_small_big`) run from the settled world it
+  finds at acquisition; an invariant with a prophecy ("run alone from here and you end well") is kept for the lock
+  holder over the real world and for everybody else over every settled world they can still find; a finite check on
+  the regenerated skeleton (`CheckC10.initGood_*`) starts it.  `C10_once` (serialized calls) is kept as a corollary-
+  style companion.
 -/
 namespace PydraModel.JobProto
 open PydraModel.Gen.JobSkeleton
@@ -67,7 +75,7 @@ theorem C10_access_locked (p : Prog) (hp : LockDiscipline p) (envs : Pid → Env
       (g.procs pid).cfg.holdsJob = true ∧ ((g.procs pid).alive = true → g.sh.jobLock = some pid) := by
   intro g hn ha
   have hD := discInv_run _ (discInv_init p hp.2.1 envs dir result) ms
-  have hh := access_inside_lock g hD pid a hn ha
+  have hh := access_inside_lock g hD pid a hn (by simp [Act.needsJobLock, ha])
   exact ⟨hh, fun hal => (C10_marker p hp.1 envs dir result ms pid hal).mp hh⟩
 
 theorem C10_discipline : LockDiscipline jobRun ∧ LockDiscipline jobRunAsync :=
@@ -95,6 +103,50 @@ theorem C10_once_async (envs : List Env) (hne : envs ≠ []) (hall : ∀ e ∈ e
   serial_once jobRunAsync auditStartChdir CheckC10.callGood_async envs hne hall w0 h0
 
 example : (⟨false, true, none, auditStartChdir⟩ : Env).plain auditStartChdir := ⟨rfl, rfl, rfl⟩
+
+/-- THE MOVER FACT: an action that does not need the job lock (every action a `LockDiscipline` program performs
+    outside it, by `C10_access_locked`) does the same in every world — to the process's local state only — leaves
+    directory, result file and both markers untouched and enters no task body -/
+theorem C10_mover (env : Env) (i : Nat) (a : Act) (ha : a.isFree = true) (F : Files) (jl sl : LockSt) (l : Local) :
+    coreStep env .none i a (mkCore F jl sl l) = (mkCore F jl sl (locStep env i a l).1, (locStep env i a l).2) ∧
+    execsIn (locStep env i a l).2.2 = 0 :=
+  coreStep_free env i a ha F jl sl l
+
+/-- EXACTLY ONCE FOR ARBITRARY INTERLEAVINGS of `Job.run`: `qs` is the sequence of the processes that move (any
+    length, any process identifiers — any number of submitters), `envs` their flags (no rerun, body succeeds),
+    `(d0, r0)` the initial directory / result file (any legal one: absent, torn, complete good, complete errored) -/
+theorem C10_once_interleaved (envs : Pid → Env) (hpl : ∀ q, PlainEnv auditStartChdir (envs q)) (d0 : Bool) (r0 : ResFile)
+    (hleg : r0.legal = true) (qs : List Pid) :
+    (∀ q c, ((grunSteps (Global.init jobRun envs d0 r0) qs).procs q).ended = some c →
+      c = .returning ∧ ((grunSteps (Global.init jobRun envs d0 r0) qs).procs q).loc.resVar = some ⟨false, true⟩) ∧
+    ((grunSteps (Global.init jobRun envs d0 r0) qs).sh.jobLock = none →
+      (files (grunSteps (Global.init jobRun envs d0 r0) qs), ex (grunSteps (Global.init jobRun envs d0 r0) qs)) = ((d0, r0), 0) ∨
+      (files (grunSteps (Global.init jobRun envs d0 r0) qs), ex (grunSteps (Global.init jobRun envs d0 r0) qs)) = targetOf (d0, r0)) ∧
+    ((grunSteps (Global.init jobRun envs d0 r0) qs).sh.jobLock = none →
+      (∃ q, ((grunSteps (Global.init jobRun envs d0 r0) qs).procs q).ended.isSome = true) →
+      (files (grunSteps (Global.init jobRun envs d0 r0) qs), ex (grunSteps (Global.init jobRun envs d0 r0) qs)) = targetOf (d0, r0)) ∧
+    (∀ a b, ((grunSteps (Global.init jobRun envs d0 r0) qs).procs a).cfg.holdsJob = true →
+      ((grunSteps (Global.init jobRun envs d0 r0) qs).procs b).cfg.holdsJob = true → a = b) :=
+  once_interleaved jobRun CheckC10.discipline_run.1 CheckC10.discipline_run.2.1 auditStartChdir CheckC10.soloFuel
+    CheckC10.initGood_run envs hpl d0 r0 hleg qs
+
+theorem C10_once_interleaved_async (envs : Pid → Env) (hpl : ∀ q, PlainEnv auditStartChdir (envs q)) (d0 : Bool)
+    (r0 : ResFile) (hleg : r0.legal = true) (qs : List Pid) :
+    (∀ q c, ((grunSteps (Global.init jobRunAsync envs d0 r0) qs).procs q).ended = some c →
+      c = .returning ∧ ((grunSteps (Global.init jobRunAsync envs d0 r0) qs).procs q).loc.resVar = some ⟨false, true⟩) ∧
+    ((grunSteps (Global.init jobRunAsync envs d0 r0) qs).sh.jobLock = none →
+      (∃ q, ((grunSteps (Global.init jobRunAsync envs d0 r0) qs).procs q).ended.isSome = true) →
+      (files (grunSteps (Global.init jobRunAsync envs d0 r0) qs), ex (grunSteps (Global.init jobRunAsync envs d0 r0) qs)) =
+        targetOf (d0, r0)) :=
+  let h := once_interleaved jobRunAsync CheckC10.discipline_async.1 CheckC10.discipline_async.2.1 auditStartChdir
+    CheckC10.soloFuel CheckC10.initGood_async envs hpl d0 r0 hleg qs
+  ⟨h.1, h.2.2.1⟩
+
+/-- non-vacuity: the target world of an empty cache location is "complete good result, body entered once"; of a
+    location that already holds the good result, "entered never" -/
+example : targetOf (false, .absent) = ((true, .complete ⟨false, true⟩), 1) := by decide
+example : targetOf (true, .complete ⟨false, true⟩) = ((true, .complete ⟨false, true⟩), 0) := by decide
+example : PlainEnv auditStartChdir ⟨false, true, none, auditStartChdir⟩ := ⟨rfl, rfl, rfl⟩
 
 /-- the interleaving semantics restricted to one uninterrupted process IS the sequential semantics -/
 theorem C10_small_big {σ : Type} (S : Sem σ) (p : Prog) (s : σ) (h : (p.run S 0 s).2.stops = false) :
